@@ -178,9 +178,15 @@ def run_verus_unit_once(unit, work, seed, force, rlimit=None, dropb=None):
         proc.communicate()
         return dict(unit=unit, verified=0, errors=0, failures=[], tool_errors=["resource: verus did not finish within the time limit"], fstats=[], meta=meta,
                     wall_s=round(time.time() - t0, 2), smt_ms=0, unsupported_fns=[])
+    # functions that did not exist when the contracts were written and are still verified: if the verifier crashes (it does on some
+    # iterator-adapter bodies instead of refusing them), they are the first suspects and are retried with their bodies skipped
+    suspects = [q for q in meta['report'].get('new_functions', []) if q not in force]
     try:
         j = json.loads(r.stdout)
     except Exception:
+        if suspects and 'panicked' in (r.stderr or ''):
+            return dict(unit=unit, verified=0, errors=0, failures=[], tool_errors=[], fstats=[], meta=meta,
+                        wall_s=round(time.time() - t0, 2), smt_ms=0, unsupported_fns=suspects, uncompilable_fns=[])
         raise Inconclusive("verus produced no JSON for unit %s: %s" % (unit, (r.stderr or r.stdout)[-800:]))
     linemap = meta['linemap']
     obl = meta['obligations']
@@ -290,7 +296,11 @@ def run_verus_unit_once(unit, work, seed, force, rlimit=None, dropb=None):
     if unsupported_fns or uncompilable_fns:
         tool_errors = []
     if not diags and not vr.get('success', False):
-        tool_errors.append('verus failed without diagnostics: ' + r.stderr[-600:])
+        if suspects and 'panicked' in (r.stderr or '') and not unsupported_fns:
+            unsupported_fns = suspects
+            tool_errors = []
+        else:
+            tool_errors.append('verus failed without diagnostics: ' + r.stderr[-600:])
     # per function stats
     fstats = []
     try:
@@ -346,6 +356,19 @@ def main():
         print("unknown property %s" % prop)
         return 2
     cfg = props[prop]
+    # bounded finders are shared: behind an undecided / failed obligation of a FUNCTION, every registered finder whose patterns name
+    # that function may be used, whichever property registered it (own finders first). The fallback for a whole unverifiable unit keeps
+    # to the property's own finders (`own_finders`), so that an unrelated finder never speaks for this property.
+    own = list(cfg.get('finders', []))
+    seen = set(f['name'] for f in own)
+    shared = []
+    for pid, c in props.items():
+        if isinstance(c, dict) and pid != prop:
+            for f in c.get('finders', []):
+                if f['name'] not in seen:
+                    seen.add(f['name'])
+                    shared.append(f)
+    cfg = dict(cfg, own_finders=own, finders=own + shared)
     work = tempfile.mkdtemp(prefix='verif-%s-' % prop)
     # VERIF_EVIDENCE_DIR: dev tools that run a check against a deliberately broken tree (mutcheck.sh, seed_sweep.py) send
     # the evidence elsewhere so that /verif/evidence always describes a run on the unchanged tree
@@ -383,7 +406,7 @@ def decide(prop, cfg, tier, seed, work, args, t0):
             reason = "unit %s: %s" % (unit, '; '.join(ur['tool_errors'])[:1500])
             hits = []
             if not args.no_finder:
-                for f in cfg.get('finders', []):
+                for f in cfg.get('own_finders', []):
                     if not f.get('native'):
                         continue
                     try:
@@ -584,6 +607,28 @@ def decide(prop, cfg, tier, seed, work, args, t0):
                 found = kanirun.find_counterexample(prop, v, cfg, work, ran=ran)
             except Exception as e:  # the finder never decides anything
                 replay['finder_error'] = str(e)[:500]
+        if v.get('undecided') and not (found and found.get('replayed_natively')) and not args.no_finder \
+                and not [r for r in ran if r['covers']] and any(a.startswith('new-function anchor') for a in lost.get(v['fn'], [])):
+            # a NEW helper function: no finder can name it, but it only runs through the functions that call it. If every caller in
+            # the file is driven by a covering finder (which then drives the helper too), those stand in for the helper as well.
+            nm = v['fn'].rsplit('::', 1)[-1].strip()
+            callers = [fn for fn, anchors in lost.items() if ("calls-new-function anchor %r" % nm) in anchors]
+            allcov = bool(callers)
+            for cfn in callers:
+                ran2 = []
+                try:
+                    f2 = kanirun.find_counterexample(prop, dict(v, fn=cfn), cfg, work, ran=ran2)
+                except Exception as e:
+                    f2 = None
+                if f2 and f2.get('replayed_natively'):
+                    found = f2
+                    break
+                c2 = [r for r in ran2 if r['covers']]
+                if not c2:
+                    allcov = False
+                ran = [x for x in ran if x['name'] not in [r['name'] for r in c2]] + [dict(r, via=cfn) for r in c2]
+            if not allcov:
+                ran = [r for r in ran if not r.get('via')]
         if v.get('undecided') and not (found and found.get('replayed_natively')):
             cov = [r for r in ran if r['covers']]
             if cov:
@@ -591,7 +636,10 @@ def decide(prop, cfg, tier, seed, work, args, t0):
                 # independent reference ran on the changed code and passed: the function is reported as BOUNDED (never as proved)
                 standins.append(dict(fn=v['fn'], obligation=v['obligation'], lost=lost.get(v['fn'], []), finders=cov))
                 continue
-            undecided.append("%s (lost: %s)" % (v['obligation'], '; '.join(lost.get(v['fn'], []))))
+            notes = ''.join(" [finder %s did not run: %s]" % (r['name'], r['did_not_run'][-300:].replace('\n', ' ')) for r in ran if r.get('did_not_run'))
+            if replay.get('finder_error'):
+                notes += " [finder error: %s]" % replay['finder_error'][:300]
+            undecided.append("%s (lost: %s)%s" % (v['obligation'], '; '.join(lost.get(v['fn'], [])), notes))
             continue
         if found:
             replay['counterexample'] = found
